@@ -19,7 +19,7 @@ from sim.util import derive_rng, pick, wpick
 LEVEL = 'fault_enumeration'
 OPS_KEY = 'ops'
 BUDGET = {
-    'quick': dict(runs=64, wall=600, timeout=500, det=3, minimise=30),
+    'quick': dict(runs=64, wall=600, timeout=800, det=3, minimise=30),
     'thorough': dict(runs=700, wall=3300, timeout=900, det=8, minimise=120),
 }
 RULE = ('Each evaluation = one (optimizer family+mode, config, tree, gradient '
